@@ -592,13 +592,13 @@ Proof.
   - intros t k w H _. unfold rn_dropped. destruct (drop_callback_view t w). eapply wf_frame_eq; [| |exact H]; assumption.
   - intros t k w H _. unfold rn_despawn_missing. eapply wf_frame_eq; [| |apply wf_despawn; destruct (drop_callback_view t w); eapply wf_frame_eq; [| |exact H]; eassumption]; reflexivity.
   - intros t w H. apply wf_despawn. exact H.
-  - intros t cb b w H _. frame_eq H.
+  - intros t cb b w H _ _. frame_eq H.
   - intros t tk w H. unfold once_finish. destruct (alookup t (cbs w)); [frame_eq H|exact H].
   - intros sd t r c w _ H. unfold body_begin.
     assert (H0 : wf_tables (body_sample P sd t r c w)).
     { unfold body_sample. pose proof (wf_sample_readers sd (xsys_of P t) w H) as H1.
       destruct (sample_readers sd (xsys_of P t) w) as [sm w1]. cbn [snd] in H1.
-      assert (H2 : wf_tables (note_run t r c (emit (EvRun t r c sm) w1))) by (frame_eq H1).
+      assert (H2 : wf_tables (note_run t r c (is_once_rec t w1) (emit (EvRun t r c sm) w1))) by (frame_eq H1).
       destruct (sm_l sm) as [[src [v|]]|]; try exact H2. destruct (xsys_of P t) as [[x ?]|]; [frame_eq H2|exact H2]. }
     unfold state_bump. destruct (alookup t (cbs (body_sample P sd t r c w))); [frame_eq H0|exact H0].
   - intros w H. frame_eq H.
